@@ -56,6 +56,8 @@ PROP_FLAVOURS = {
     "C04": {"quick": ["asm", "intr", "pure", "nostd"],
             "thorough": ["asm", "intr", "pure", "nostd", "plain", "stock", "stock_no_avx512", "stock_no_avx2", "stock_no_sse41", "stock_no_sse2"]},
     "C05": {"quick": ["asm", "intr", "pure"], "thorough": ["asm", "intr", "pure", "plain"]},
+    "C06": {"quick": ["asm"], "thorough": ["asm", "plain"]},
+    "C07": {"quick": ["asm"], "thorough": ["asm", "intr", "pure", "plain"]},
     "C09": {"quick": ["asm"], "thorough": ["asm", "plain"]},
     "C10": {"quick": ["asm"], "thorough": ["asm", "plain"]},
 }
@@ -425,6 +427,8 @@ def main():
         return check(prop, tier, seed)
     if a[0] == "replay":
         return replay(a[1], a[2])
+    if a[0] == "build":
+        return 0 if build_flavours(a[1:] or ["asm"]) else 2
     print(__doc__)
     return 2
 
